@@ -195,7 +195,7 @@ def gen_cases(ctx):
         [(20, 0, 255, True), (25, 255, 0, True)],
     ]
     k = 0
-    for ver in range(4, 15):
+    for ver in tuple(range(4, 15)) + (15, 16):      # NCPs newer than the newest known version run on the newest tables
         for ans in answer_seqs:
             for confs in conf_sets:
                 k += 1
